@@ -602,7 +602,7 @@ class Interp:
         # a private method of the same impl called on `self`: evaluate it in place (shared `self.*` fields), so that extracting a method is transparent
         cands = self.F.by_path.get(d, []) if hasattr(self.F, "by_path") else []
         rp = peel(n["recv"])
-        if len(cands) == 1 and rp.get("k") == "Local" and rp.get("name") == "self" and self.inline_depth < 6 \
+        if len(cands) == 1 and rp.get("k") == "Local" and (rp.get("name") == "self" or self.root_alias.get(rp.get("name")) == "self") and self.inline_depth < 6 \
                 and (cands[0].get("impl_self") or "") == (self.body.get("impl_self") or "") and not cands[0].get("impl_trait"):
             return self.inline_here(cands[0], n["args"], n, recv_value=Opaque("self"))
         raise Unsupported(n, "method %s (%s)" % (name, d))
